@@ -52,20 +52,21 @@ PROPS = {
     "C04": dict(theorems=["Props/C04.v"], parts=[
         dict(kind="core", profile="C04", mask="keys,qset", preds="c04,wf", quick=Q, thorough=T),
         dict(kind="core", profile="C04X", mask="nkeys", preds="c04", quick=300, thorough=6000),
-        dict(kind="macro", profile="C04", preds="limit", mask="nkeys,qset", quick=300, thorough=8000)]),
+        dict(kind="macro", profile="C04", preds="limit", mask="nkeys,qset", quick=300, thorough=8000),
+        dict(kind="macro", profile="C04R", preds="limit", mask="nkeys,qset", quick=200, thorough=6000)]),
     "C05": dict(theorems=["Props/C05.v", "parts/memest/coq|CLM|Props_C05_memest.v"], parts=[
         dict(kind="core", profile="C05", mask="keys,qset,size", preds="c05,wf", quick=Q, thorough=T),
         dict(kind="ext", name="memest", quick=1500, thorough=30000, env={"MEMEST_TARGET": BUILD + "/target"}),
         dict(kind="macro", profile="C05", preds="mem", mask="keys,qset", quick=300, thorough=8000)]),
     "C06": dict(theorems=["Props/C06.v"], parts=[
         dict(kind="core", profile="C06", mask="out,keys,qset,born,stats", preds="c06", quick=Q, thorough=T),
-        dict(kind="macro", profile="C06", preds="ttl", mask="ret,keys,born", quick=300, thorough=8000)]),
+        dict(kind="macro", profile="C06", preds="ttl,limit", mask="ret,keys,born", quick=300, thorough=8000)]),
     "C07": dict(theorems=["Props/C07.v"], parts=[
         dict(kind="core", profile="C07", mask="keys,queue", preds="c07", quick=Q, thorough=T),
-        dict(kind="macro", profile="C07", preds="order", mask="keys,queue", quick=300, thorough=8000)]),
+        dict(kind="macro", profile="C07", preds="order,limit", mask="keys,queue", quick=300, thorough=8000)]),
     "C08": dict(theorems=["Props/C08.v"], parts=[
         dict(kind="core", profile="C08", mask="keys,queue,freq", preds="c08", quick=Q, thorough=T),
-        dict(kind="macro", profile="C08", preds="score", mask="keys,queue,freq", quick=300, thorough=8000)]),
+        dict(kind="macro", profile="C08", preds="score,limit", mask="keys,queue,freq", quick=300, thorough=8000)]),
     "C09": dict(theorems=["Props/C09.v"], parts=[
         dict(kind="macro", profile="C09", preds="err,limit,mem", mask="ret,keys,vals", quick=400, thorough=10000)]),
     "C10": dict(theorems=["Props/C10.v"], parts=[
